@@ -182,6 +182,9 @@ func oracle(sp *Spec, o *Obs, min int) []string {
 		if !isSeq(cs, nc) {
 			bad = append(bad, "the containers received are not exactly the supplied ones, once, in order")
 		}
+		if sp.Plugin == "stubnh" && !o.Active {
+			bad = append(bad, "the registration of a plugin without a Synchronize handler completed but the plugin did not receive the event sent afterwards")
+		}
 		if sp.Plugin == "stub" {
 			if o.HandlerCalls != 1 {
 				bad = append(bad, fmt.Sprintf("the Synchronize handler was invoked %d times", o.HandlerCalls))
@@ -341,9 +344,9 @@ func coqCase(sp *Spec, o *Obs) string {
 	case "stalled":
 		out = "OStalled"
 	}
-	return fmt.Sprintf("{| sc_wp := %s; sc_wc := %s; sc_hdr := %d%%Z; sc_more := %d%%Z; sc_limit := %d%%Z; sc_stub := %s; sc_script := %s; sc_nupd := %d%%Z; "+
+	return fmt.Sprintf("{| sc_wp := %s; sc_wc := %s; sc_hdr := %d%%Z; sc_more := %d%%Z; sc_limit := %d%%Z; sc_stub := %s; sc_nohandler := %s; sc_script := %s; sc_nupd := %d%%Z; "+
 		"sc_msgs := %s; sc_outcome := %s; sc_errcode := %d%%Z; sc_once := %s; sc_hcalls := %s; sc_upd := %s; sc_active := %s; sc_usable := %s |}",
-		zweights(o.WP), zweights(o.WC), o.Hdr, o.MoreCost, o.Limit, coqBool(sp.Plugin == "stub"), coqScript(sp), sp.NUpd,
+		zweights(o.WP), zweights(o.WC), o.Hdr, o.MoreCost, o.Limit, coqBool(sp.Plugin == "stub" || sp.Plugin == "stubnh"), coqBool(sp.Plugin == "stubnh"), coqScript(sp), sp.NUpd,
 		ms, out, grpcCode(sp), coqBool(sp.Once), coqCalls1(o.Invocations), zlist(o.GotUpd), coqBool(o.Active), coqBool(o.Usable))
 }
 
@@ -635,6 +638,10 @@ func decorate(r *rand.Rand, sp *Spec, misbehave bool) *Spec {
 		sp.At = 1 + r.Intn(4)
 	}
 	sp.NUpd = r.Intn(4)
+	if sp.Plugin == "stub" && sp.Script == "good" && (len(sp.Pods)+len(sp.Ctrs)+sp.NUpd)%4 == 0 {
+		// a plugin without a Synchronize handler (events only): nothing to return
+		sp.Plugin, sp.NUpd = "stubnh", 0
+	}
 	if sp.Script == "err" || sp.Script == "errfinal" {
 		// the kind of the error and whether only the first final message is failed: derived from the
 		// case itself (no further draws, so that the population of states stays what it was)
@@ -891,6 +898,7 @@ func driveSync(c *hx.Ctx) error {
 	var rtot resyncTotals
 	var multiShard *hx.Shard
 	var mtot multiTotals
+	nohandlerSplit := 0 // handler-less stubs synchronised with a state that needed several messages
 	retriesSeen := 0 // most consecutive oversize retries any single-registration state needs (predicted)
 	for i, t := range all {
 		sp, rs := t.sp, res[i]
@@ -927,6 +935,9 @@ func driveSync(c *hx.Ctx) error {
 		c.Count("outcome."+o.Outcome, 1)
 		c.Count("plugin."+sp.Plugin, 1)
 		c.Count("script."+sp.Script, 1)
+		if sp.Plugin == "stubnh" && len(o.Msgs) >= 2 {
+			nohandlerSplit++
+		}
 		if sp.Script == "err" || sp.Script == "errfinal" {
 			code := sp.Code
 			if code == "" {
@@ -994,6 +1005,9 @@ func driveSync(c *hx.Ctx) error {
 		}
 	}
 	if os.Getenv("H_SYNC_ONLY") == "" && !misbehaved {
+		if nohandlerSplit == 0 {
+			c.HarnessError("no stub without a Synchronize handler was synchronised with a state that needed several messages")
+		}
 		if retriesSeen <= 8 {
 			c.HarnessError("no state needed more than 8 consecutive oversize retries of one message (most: %d)", retriesSeen)
 		}
